@@ -49,6 +49,8 @@ fn regs_outcome(r: Result<Vec<Indexed<u16>>, RequestError>) -> Outcome {
 
 pub struct Listen {
     pub log: StateLog,
+    /// the user's listener future takes this long to resolve (it is awaited inline by the task)
+    pub delay_ns: u64,
 }
 
 impl Listener<ClientState> for Listen {
@@ -62,7 +64,13 @@ impl Listener<ClientState> for Listen {
             ClientState::Shutdown => MState::Shutdown,
         };
         self.log.lock().unwrap().push((kernel::now_ns(), s));
-        MaybeAsync::ready(())
+        if self.delay_ns > 0 {
+            kernel::count("fault_slow_listener");
+            let d = self.delay_ns;
+            MaybeAsync::asynchronous(async move { simtokio::time::sleep(Duration::from_nanos(d)).await })
+        } else {
+            MaybeAsync::ready(())
+        }
     }
 }
 
@@ -330,12 +338,16 @@ pub struct ClientRig {
 }
 
 pub fn start_tcp_client(addr: SocketAddr, retry: (u64, u64), opts: ClientOptions) -> ClientRig {
+    start_tcp_client_slow(addr, retry, opts, 0)
+}
+
+pub fn start_tcp_client_slow(addr: SocketAddr, retry: (u64, u64), opts: ClientOptions, listener_delay_ns: u64) -> ClientRig {
     let states: StateLog = Arc::new(Mutex::new(Vec::new()));
     let comps: Completions = Arc::new(Mutex::new(Vec::new()));
     let (channel, task) = create_tcp_client_task_with_options(
         HostAddr::ip(addr.ip(), addr.port()),
         doubling_retry_strategy(Duration::from_nanos(retry.0), Duration::from_nanos(retry.1)),
-        Some(Box::new(Listen { log: states.clone() })),
+        Some(Box::new(Listen { log: states.clone(), delay_ns: listener_delay_ns })),
         opts,
     );
     let task = simtokio::task::spawn_named("tcp-client", task.run());
